@@ -1437,6 +1437,10 @@ impl Gen {
         let (y, y_owner) = v[1].clone();
         let m = &names.market;
         let seller = self.other_user(names, &y_owner);
+        // an ask naming BOTH look-alikes is duplicate-free and must be accepted
+        let both = AskSpec { nfts: vec![x.clone(), y.clone()], ..Default::default() };
+        self.script.push_back(Op::tx(&seller, m, msgs::create_listing(901, &both, None), vec![fund("uatom", 12)]));
+        self.script.push_back(Op::tx(&seller, m, msgs::change_ask(901, &both), vec![]));
         let ask = AskSpec { nfts: vec![x], ..Default::default() };
         self.count("confusable_nft_offered");
         // ids far away from the ones the other preludes use
